@@ -114,19 +114,8 @@ def tokenizer_b(out, tier, scratch, rng):
             tokenizerb_disagree=dis)
 
 
-FLEX = {'F': 'f', 'QS': "'", 'QD': '"', 'X': 't', 'T': 'a', 'LB': '{', 'RB': '}', 'CO': ':', 'BA': '!', 'O': '(', 'C': ')',
-        'W': ' '}
+from harness.inputs import FSTRINGB_LEX as FLEX, fstringb_valid as _fb_valid  # noqa: E402
 FB_INVS = ['Tiles', 'Balanced', 'NoIndentInside', 'StringsPure', 'Columns', 'EnvOk']
-
-
-def _fb_valid(ls):
-    for a, b in zip(ls, ls[1:]):
-        if a in 'FXT' and b in 'FXT':
-            return False
-    for a, b, c in zip(ls, ls[1:], ls[2:]):
-        if a in ('QS', 'QD') and a == b == c:
-            return False
-    return True
 
 
 def fstring_b(out, tier, scratch, rng):
@@ -148,10 +137,21 @@ def fstring_b(out, tier, scratch, rng):
     if res.violated:
         out.drift.append('FStringB violates %s: %s' % (res.violated, res.out[-600:]))
 
+    raised = {}
+
     def real(lines, ver):
         text = ''.join(''.join(FLEX[x] for x in ln) + '\n' for ln in lines)
-        return text, [[t.type.name, list(t.string), t.start_pos[1], list(t.prefix)]
-                      for t in tokenize(text, version_info=parse_version_string(ver))]
+        try:
+            return text, [[t.type.name, list(t.string), t.start_pos[1], list(t.prefix)]
+                          for t in tokenize(text, version_info=parse_version_string(ver))]
+        except Exception as e:  # noqa: the real tokenizer is total (C09): a raise is a violation, not drift
+            from harness import record
+            k = record.exc_key(e)
+            if k not in raised:
+                raised[k] = (text, ver)
+                out.violation('NeverFails|' + k, 'TokenStream.NeverFails:raised', {'text': text, 'version': ver, 'exc': k},
+                              {'kind': 'tokens', 'trace': {'text': text, 'ver': ver}})
+            return text, []
     L = sorted(FLEX)
     traces = []
     texts = {}
